@@ -108,6 +108,11 @@ func (ds *Dataset) StartFullSyncWithLease(fullSyncID string) error {
 func (ds *Dataset) RefreshFullSyncLease(fullSyncID string) error {
 	if ds.fullSyncStarted {
 		if fullSyncID == ds.fullSyncID {
+			if ds.fullSyncLease == nil && fullSyncID == "" {
+				// a sync started without a lease (a fullsync job writing to this dataset) is not bound to
+				// one: a plain write arriving meanwhile must not arm a timer that later resets the job's sync
+				return nil
+			}
 			// cancel previous lease
 			if ds.fullSyncLease != nil && ds.fullSyncLease.cancel != nil {
 				ds.fullSyncLease.cancel()
@@ -120,16 +125,18 @@ func (ds *Dataset) RefreshFullSyncLease(fullSyncID string) error {
 				cancel,
 			}
 
+			lease := ds.fullSyncLease
 			go func() {
 				verifhook.Go(ds.store.database, "fullsync.lease")
-				currentFsID := ds.fullSyncID
 
 				<-ctx.Done()
 				verifhook.Point(ds.store.database, "fullsync.lease.fired")
 				endTime, ok := ctx.Deadline()
 				// time out was the cause
 				now := time.Now()
-				if ok && now.After(endTime) && ds.fullSyncID == currentFsID {
+				// only the lease that is still the dataset's current one may end the sync: a sync id can be
+				// used again (and is empty for job syncs), a lease object cannot
+				if ok && now.After(endTime) && ds.fullSyncLease == lease {
 					ds.fullSyncStarted = false
 					ds.fullSyncSeen = make(map[uint64]int)
 					ds.fullSyncID = ""
